@@ -221,3 +221,44 @@ fn c16_udp_exact_fit_is_sent_unaltered() {
     kani::cover!(!rejected, "sent");
 }
 }
+
+// C17 "a connected UDP socket [receives] only from its peer": the peer is the one named by the LAST
+// connect. A bound datagram socket is connected through the real `Kernel::poll_connect` to PEER1 and
+// (symbolically) re-connected to PEER2; a datagram from a symbolic source then reaches the socket iff
+// the source is the current peer (seed C17-5: a second connect silently kept the old peer).
+// @verif id=C17,C09 tier=quick role=udp_connected_filter timeout=900
+crate::verif_proof! { unwind = 8;
+fn c17_udp_connected_socket_follows_its_last_connect() {
+    let mut k = Kernel::new();
+    k.add_address(A);
+    let fd = install(&mut k, A, 5000);
+    let mut cx = crate::verif_common::noop_cx();
+    let r = k.poll_connect(fd, &mut cx, &Addr::Inet(PEER1));
+    assert!(matches!(r, Poll::Ready(Ok(()))));
+    std::mem::forget(r);
+    let again: bool = kani::any();
+    if again {
+        let r = k.poll_connect(fd, &mut cx, &Addr::Inet(PEER2));
+        assert!(matches!(r, Poll::Ready(Ok(()))));
+        std::mem::forget(r);
+    }
+    let peer = if again { PEER2 } else { PEER1 };
+    assert!(k.sockets.get(fd).unwrap().peer == Some(Addr::Inet(peer)), "peer_addr names the last connect");
+    let src = if kani::any() { PEER1 } else { PEER2 };
+    let body: [u8; 2] = kani::any();
+    let pkt = Packet {
+        src: src.ip(),
+        dst: A,
+        ttl: 64,
+        payload: Transport::Udp(UdpDatagram { src_port: src.port(), dst_port: 5000, payload: Bytes::copy_from_slice(&body) }),
+    };
+    let Transport::Udp(d) = &pkt.payload else { unreachable!() };
+    deliver(&mut k, &pkt, d);
+    let q = k.sockets.get(fd).unwrap().recv_queue.len();
+    assert!(q == if src == peer { 1 } else { 0 }, "only the current peer's datagrams are queued");
+    kani::cover!(again && src == PEER2 && q == 1, "datagram from the new peer after a re-connect");
+    kani::cover!(again && src == PEER1 && q == 0, "datagram from the old peer after a re-connect is dropped");
+    std::mem::forget(k);
+    std::mem::forget(pkt);
+}
+}
